@@ -502,6 +502,10 @@ pub struct StreamEngine;
 
 impl Engine for StreamEngine {
     type Case = StreamCase;
+    fn hang_limit_secs(&self) -> u64 {
+        // cases of this engine take milliseconds
+        90
+    }
     fn property(&self) -> &str {
         "C19"
     }
